@@ -18,7 +18,7 @@ EXPLANATION = (
     '(R6) the RPC handler behind Docs::import evaluated on {import, open, other handle calls} x {ok, fails}: success is '
     "reported only after SyncHandle::import_namespace succeeded with the request's capability. (R7) the file-format "
     'migration that runs on open for stores written by iroh-docs 0.94..=0.98 (migrate_redb_v2_tuples::run), evaluated on an'
-    ' old file holding one row per table, carries the capability tables. NOT decided: redb persistence itself.'
+    ' old file holding one row per table, carries the capability tables; (R8) Capability::raw -> from_raw evaluated per variant (the stored form reads back as the same variant over the same bytes, kind bytes distinct) and migration 002 evaluated on version-1 tables of 0, 1 and 3 secrets: each becomes a row of the current table keyed by the id derived from the secret and reading back as Write(that secret). NOT decided: redb persistence itself.'
 )
 ASSUMPTIONS = ["std::mem::replace(self, other) stores other into self", "redb tables are identified by their key/value types"]
 
@@ -423,6 +423,15 @@ def r7(ctx):
     ctx.floor("C07.R7", 1)
 
 
+def r8(ctx):
+    """"no ... reopen of the store downgrades it": what is written to the namespaces table reads back as the same
+    capability, and a version-1 database (write secrets only) opens with every document writable"""
+    from . import nsmig
+    nsmig.check_round_trip(ctx, "C07.R8")
+    nsmig.check_migration_002(ctx, "C07.R8")
+    ctx.floor("C07.R8", 6)
+
+
 def run(ctx):
     ctx.run_rule("C07.R1", r1)
     ctx.run_rule("C07.R2", r2)
@@ -431,3 +440,4 @@ def run(ctx):
     ctx.run_rule("C07.R5", r5)
     ctx.run_rule("C07.R6", r6)
     ctx.run_rule("C07.R7", r7)
+    ctx.run_rule("C07.R8", r8)
